@@ -69,4 +69,5 @@ Proof.
         intros m' Hin. apply Hall. cbn [firstn]. right. exact Hin.
   - (* J8 *) intros u. rewrite HT. destruct (Nat.eqb_spec u t) as [->|Hne']; cbn [started x']; [discriminate|].
     apply (J8 s I u).
+  - intros _ H0. exists t. rewrite HT, Nat.eqb_refl. cbn [mustfree x']. apply Nat.eqb_eq. lia.
 Qed.
